@@ -54,6 +54,9 @@ type ftOp struct {
 	Stored *StoredSpec `json:"stored,omitempty"`
 	// read: the harness's decoder reports this failure
 	SinkFails bool `json:"sink_fails,omitempty"`
+	// write (obj.WriteVar): the value is a signed update produced by SignEFIVariable, and the SAME object is handed to
+	// every write of this run that names the same value
+	Blob bool `json:"blob,omitempty"`
 }
 
 // ValSpec describes a value compactly.
@@ -159,7 +162,8 @@ func init() { register(&fstraceEngine{}) }
 func (e *fstraceEngine) Name() string     { return "fstrace" }
 func (e *fstraceEngine) Property() string { return "C11" }
 
-var ftDirs = []string{"/sys/firmware/efi/efivars", "simrel/efivars", "/simefivars/", "/sim/a/b/c/d/efivars"}
+var ftDirs = []string{"/sys/firmware/efi/efivars", "simrel/efivars", "/simefivars/", "/sim/a/b/c/d/efivars",
+	"/srv/images/efi%20vars", "/mnt/100%/run-%d/%s", "/var/lib/efi vars (copy)/v", "/sim/Ünïcode/efivars"}
 
 var ftWriteAPIs = []string{"obj.WriteVar", "legacy.WriteEfivarsWithGuid"}
 var ftReadAPIs = []string{"obj.GetVar", "obj.GetVarWithAttributes", "legacy.ReadEfivarsWithGuid"}
@@ -254,6 +258,15 @@ func (e *fstraceEngine) gridCases() []ftCase {
 			out = append(out, ftCase{cfg: ftCfg{Dir: dir, NoDir: true}, ops: []ftOp{{Op: "write", API: api, Var: VarSpec{Sym: "Db"}, Val: vals[0]}}})
 		}
 		out = append(out, ftCase{cfg: ftCfg{Dir: dir, NoDir: true}, ops: []ftOp{{Op: "read", API: "obj.GetVar", Var: VarSpec{Sym: "Db"}}}})
+		for _, g := range ftEfiGetters {
+			req := uint32(predefinedVar(g.sym).Attributes)
+			for _, m := range storedMasks(req) {
+				if di > 0 && m != req {
+					continue
+				}
+				out = append(out, ftCase{cfg: ftCfg{Dir: dir}, ops: []ftOp{{Op: "read", API: g.api, Var: VarSpec{Sym: g.sym}, Stored: &StoredSpec{Mask: m, Val: ValSpec{Kind: "hashdb", N: 2, Tag: 6}}}}})
+			}
+		}
 		for _, acc := range ftTyped {
 			req := uint32(acc.v().Attributes)
 			for _, m := range storedMasks(req) {
@@ -301,6 +314,8 @@ var ftTyped = []ftAccessor{
 	{"GetBootEntry", VarSpec{Sym: "BootEntry", Name: "Boot0001"}, ValSpec{Kind: "bootentry"}},
 	{"GetLoaderEntrySelected", VarSpec{Sym: "LoaderEntrySelected"}, ValSpec{Kind: "str", Tag: 7}},
 }
+
+var ftEfiGetters = []struct{ api, sym string }{{"efi.GetPK", "PK"}, {"efi.GetKEK", "KEK"}, {"efi.Getdb", "Db"}, {"efi.Getdbx", "Dbx"}}
 
 func ftRandomCount(tier string) int {
 	if tier == "thorough" {
@@ -446,6 +461,21 @@ func (e *fstraceEngine) Gen(seed uint64, tier string, run int) *Trace {
 				}
 				continue
 			}
+			if c.cfg.Clients <= 1 && r.Chance(1, 14) {
+				g := Pick(r, ftEfiGetters)
+				req := uint32(predefinedVar(g.sym).Attributes)
+				st := &StoredSpec{Mask: req, Val: Pick(r, []ValSpec{{Kind: "randdb", Tag: r.Intn(1 << 24)}, {Kind: "hashdb", N: r.Range(0, 9), Tag: r.Intn(200)}, {Kind: "certdb", Tag: r.Intn(poolSize)}})}
+				switch r.Intn(4) {
+				case 0:
+					st.Mask = uint32(r.Intn(0x80))
+				case 1:
+					st.Mask = Pick(r, storedMasks(req))
+				case 2:
+					st.Mask = req | uint32(r.Intn(0x100))
+				}
+				c.ops = append(c.ops, ftOp{C: cl, Op: "read", API: g.api, Var: VarSpec{Sym: g.sym}, Stored: st})
+				continue
+			}
 			if c.cfg.Clients <= 1 && r.Chance(1, 7) {
 				// a typed accessor on a value of arbitrary (well-formed) shape
 				acc := Pick(r, ftTyped)
@@ -474,7 +504,14 @@ func (e *fstraceEngine) Gen(seed uint64, tier string, run int) *Trace {
 				if r.Chance(1, 12) && v.Sym != "" && c.cfg.Clients <= 1 {
 					api = "obj.WriteSignedUpdate"
 				}
-				c.ops = append(c.ops, ftOp{C: cl, Op: "write", API: api, Var: v, Val: genVal(r)})
+				wop := ftOp{C: cl, Op: "write", API: api, Var: v, Val: genVal(r)}
+				if api == "obj.WriteVar" && c.cfg.Clients <= 1 && r.Chance(1, 8) {
+					// a signed update as the value, and the same update object again for another write of this run
+					wop.Blob, wop.Val = true, ValSpec{Kind: "hashdb", N: r.Range(0, 3), Tag: r.Intn(4)}
+					c.ops = append(c.ops, wop)
+					wop.Var = Pick(r, vars)
+				}
+				c.ops = append(c.ops, wop)
 			} else {
 				op := ftOp{C: cl, Op: "read", API: Pick(r, ftReadAPIs), Var: v, SinkFails: r.Chance(1, 20)}
 				if r.Chance(2, 3) {
@@ -579,7 +616,7 @@ func (e *fstraceEngine) Exec(tr *Trace, x *X) {
 	}
 	needClock := false
 	for _, o := range ops {
-		if o.API == "obj.WriteSignedUpdate" {
+		if o.API == "obj.WriteSignedUpdate" || o.Blob {
 			needClock = true
 		}
 	}
@@ -597,7 +634,16 @@ func (e *fstraceEngine) Exec(tr *Trace, x *X) {
 	}
 }
 
+// ftBlobs: the signed-update objects of the current run (one run at a time per worker process).
+type ftBlob struct {
+	m     efivar.Marshallable
+	bytes []byte
+}
+
+var ftBlobs map[string]ftBlob
+
 func ftExec(c ftCfg, ops []ftOp, sw []Switch, x *X) {
+	ftBlobs = map[string]ftBlob{}
 	plane := NewPlane(x)
 	mem := afero.NewMemMapFs()
 	sfs := NewSimFs(mem, plane, x)
@@ -687,6 +733,23 @@ func ftSync(mem afero.Fs, p string, fw *fwModel) {
 
 func ftWrite(x *X, i int, op ftOp, v efivar.Efivar, p string, c ftCfg, obj *efivarfs.Efivarfs, sfs *SimFs, mem afero.Fs, fw *fwModel) {
 	val := op.Val.Bytes()
+	var marsh efivar.Marshallable = rawVal(val)
+	if op.Blob && op.API == "obj.WriteVar" {
+		key := fmt.Sprint(op.Val, c.Key)
+		b, ok := ftBlobs[key]
+		if !ok {
+			pk := Pool()[c.Key%poolSize]
+			_, m, err := signature.SignEFIVariable(efivar.Db, rawVal(val), pk.Key, pk.Cert)
+			if err != nil {
+				harnessf("fstrace: SignEFIVariable: %v", err)
+			}
+			b = ftBlob{m: m, bytes: m.Bytes()}
+			ftBlobs[key] = b
+		} else {
+			x.Probe("same_update_object_written_again")
+		}
+		marsh, val = b.m, b.bytes
+	}
 	mask := uint32(v.Attributes)
 	kind := "write:" + op.API
 	x.Logf("op %d %s var=%s val=%s", i, kind, op.Var.String(), shortHex(val))
@@ -703,7 +766,7 @@ func ftWrite(x *X, i int, op ftOp, v efivar.Efivar, p string, c ftCfg, obj *efiv
 		defer func() { pv = recover() }()
 		switch op.API {
 		case "obj.WriteVar":
-			err = obj.WriteVar(v, rawVal(val))
+			err = obj.WriteVar(v, marsh)
 		case "obj.WriteSignedUpdate":
 			pk := Pool()[c.Key%poolSize]
 			err = obj.WriteSignedUpdate(v, rawVal(val), pk.Key, pk.Cert)
@@ -939,6 +1002,23 @@ func ftRead(x *X, i int, op ftOp, v efivar.Efivar, p string, obj *efivarfs.Efiva
 			if b != nil {
 				gotVal, hasVal = b.Bytes(), true
 			}
+		case "efi.GetPK", "efi.GetKEK", "efi.Getdb", "efi.Getdbx":
+			var db *signature.SignatureDatabase
+			switch op.API {
+			case "efi.GetPK":
+				db, err = efi.GetPK()
+			case "efi.GetKEK":
+				db, err = efi.GetKEK()
+			case "efi.Getdb":
+				db, err = efi.Getdb()
+			default:
+				db, err = efi.Getdbx()
+			}
+			if err == nil && db != nil {
+				typed = fmt.Sprintf("db:%x", db.Bytes())
+			} else if err == nil {
+				err = errors.New("nil database, nil error")
+			}
 		default:
 			ftBootName = v.Name
 			typed, err = ftTypedRead(obj, op.API)
@@ -963,6 +1043,39 @@ func ftRead(x *X, i int, op ftOp, v efivar.Efivar, p string, obj *efivarfs.Efiva
 	}
 	legacy := op.API == "legacy.ReadEfivarsWithGuid" || op.API == "legacy.ReadEfivars"
 	isTyped := len(op.API) > 6 && op.API[:6] == "typed."
+	// the top-level getters of package efi: they define an absent (or empty) variable as "not set" and answer with an empty
+	// database, and they report a mask that lacks a required attribute with an error of their own. What the statement says
+	// about present variables holds for them too: no value from a variable whose stored mask lacks a required attribute, and
+	// otherwise the value decoded from the bytes behind the mask.
+	isEfi := len(op.API) > 4 && op.API[:4] == "efi."
+	if isEfi {
+		x.Probe("legacy_toplevel_getter")
+		if !present || len(raw) < 4 {
+			return
+		}
+		stored := binary.LittleEndian.Uint32(raw)
+		if req&^stored != 0 {
+			if err == nil {
+				x.Fail("fstrace.wrong_attributes_error", i, kind, "stored mask %#x lacks required %#x but the getter returned a database (%s)", stored, req&^stored, shortHex([]byte(typed)))
+			}
+			return
+		}
+		want, bad := ftTypedRef("typed.GetPK", raw[4:])
+		if bad {
+			if err == nil {
+				x.Fail("fstrace.read_value", i, kind, "undecodable value but the getter succeeded with %q", typed)
+			}
+			return
+		}
+		if err != nil {
+			x.Fail("fstrace.read_succeeds", i, kind, "well-formed variable with sufficient attributes, getter returned %v", err)
+			return
+		}
+		if typed != want {
+			x.Fail("fstrace.read_value", i, kind, "getter returned %s, reference decode gives %s", shortHex([]byte(typed)), shortHex([]byte(want)))
+		}
+		return
+	}
 	if !present || len(raw) < 4 {
 		x.State(h64("r", op.API, "absent-or-short", present))
 		if err == nil {
